@@ -122,6 +122,14 @@ def run(n, seed):
             case = {"seed": sd, "stored": stored, "msg": msg, "layout": layout, "linflight": li, "lwaiting": lw}
             if len(stats["samples"]) < 2 and oh == "ok":
                 stats["samples"].append(case)
+            # the gate, judged on the implementation's own answer: success only from the exact source version of the
+            # chosen path, under the same contract name
+            want_from = {"v1_0_0_to_v1_1_0": "1.0.0", "v0_4_20_to_v1_0_0": "0.4.20", "v0_4_18_to_v0_4_20": "0.4.18"}[next(iter(msg))]
+            if oh == "ok" and (stored is None or stored.get("contract") != "staking" or stored.get("version") != want_from):
+                findings.append({"property": "C18", "monitor": "version_gate", "signature": {"path": next(iter(msg))},
+                                 "what": "migration %s succeeded from stored contract info %s (the path starts at staking %s)" % (
+                                     next(iter(msg)), stored, want_from),
+                                 "seed": sd, "events": [case], "event": case})
             if oh != om:
                 divs.append({"seed": sd, "channel": "migrate.outcome", "detail": {"case": case, "impl": rh, "model": rm["result"]}, "events": []})
                 continue
